@@ -4,7 +4,8 @@
 //! Case line:  `<C03|C16> <sum|aff|key> <ctl|own|big> [pm=k] ; op ; op ; ...`   (see lean/Driver/Treap.lean)
 //!   ctl  priorities are in the case and are written into the public `priority` field;
 //!   own  priorities are the ones rlib draws (`*`), only sequence-level observables are compared;
-//!   big  (C16) macro operations up to 10^6 elements: heap order on every edge, measured height.
+//!   big  (C16) macro operations up to 10^6 elements: heap order on every edge, measured height;
+//!        wave 3: `strides S L`, `rr k c`, `thin s c`, `keep s` — the nodes of one treap are a subsequence of the thread's creations.
 #[path = "../../common/mod.rs"]
 mod common;
 mod gen;
@@ -590,6 +591,90 @@ fn big_op(t: &mut Treap<SumIt>, n: &mut usize, ctr: &mut i64, tk: &[&str]) -> Re
                 let _ = TreapNode::new(SumIt::mk(0));
             }
         }
+        // ---- the nodes of ONE treap are a SUBSEQUENCE of the thread's node creations ---------------------------
+        ("rr", 3) => {
+            // `rr k c`: k treaps (one per bucket / grid row) filled round-robin by c rounds of appends: the nodes of
+            // treap j are the creations j, j+k, j+2k, …; every treap must satisfy the bound; at the end they are
+            // concatenated behind the main treap (n grows by k*c)
+            let (k, rounds) = (c, seed as usize);
+            let mut rows: Vec<Treap<SumIt>> = (0..k).map(|_| Treap::new()).collect();
+            for it in 1..=rounds {
+                for row in rows.iter_mut() {
+                    *ctr += 1;
+                    row.insert_at(it - 1, SumIt::mk(*ctr % 1000));
+                }
+                if (it.is_power_of_two() && it >= 32) || it == rounds {
+                    for (j, row) in rows.iter().enumerate() {
+                        let (h, cnt) = height_count(&row.root);
+                        if cnt != it || row.size() != it {
+                            return Err(Some(format!("BAD(row={},nodes={},size={},expected={})", j, cnt, row.size(), it)));
+                        }
+                        if !heap_ok(&row.root) {
+                            return Err(Some(format!("BAD(row={},heap)", j)));
+                        }
+                        if (h as f64) > height_bound(it) {
+                            return Err(Some(format!("BAD(row={}-of-{},elements={},height={}>{:.1})", j, k, it, h, height_bound(it))));
+                        }
+                    }
+                }
+            }
+            for (j, row) in rows.into_iter().enumerate() {
+                *t = Treap::merge(std::mem::replace(t, empty()), row);
+                *n += rounds;
+                early(t, *n, j + 1).map_err(Some)?;
+            }
+        }
+        ("thin", 3) => {
+            // `thin s c`: c appends; between two of them s-1 nodes are created elsewhere on the thread (scratch nodes,
+            // dropped): the treap's nodes are every s-th creation
+            let (s, cnt) = (c.max(1), seed as usize);
+            for it in 1..=cnt {
+                for _ in 1..s {
+                    let _ = TreapNode::new(SumIt::mk(0));
+                }
+                *ctr += 1;
+                t.insert_at(*n, SumIt::mk(*ctr % 1000));
+                *n += 1;
+                early(t, *n, it).map_err(Some)?;
+            }
+        }
+        ("keep", 2) => {
+            // `keep s`: thin the sequence to every s-th element (positions s-1, 2s-1, …): cut off s-1 elements and drop
+            // them, cut off one and append it to the result
+            if c == 0 {
+                return Err(None);
+            }
+            let mut rest = std::mem::replace(t, empty());
+            let mut acc: Treap<SumIt> = Treap::new();
+            let mut kept = 0usize;
+            let mut remaining = *n;
+            while remaining >= c {
+                let (_drop, r) = rest.split_at(c - 1);
+                let (one, r2) = r.split_at(1);
+                rest = r2;
+                remaining -= c;
+                acc = Treap::merge(acc, one);
+                kept += 1;
+                if let Err(e) = early(&acc, kept, kept) {
+                    *n = kept;
+                    return Err(Some(e));
+                }
+            }
+            *t = acc;
+            *n = kept;
+        }
+        ("strides", 3) => {
+            // `strides S L`: S*L nodes are created one after the other (`TreapNode::new`); then for EVERY stride
+            // s = 1..=S (and two windows) the nodes o, o+s, o+2s, … (L of them) are linked into one treap by successive
+            // `TreapNode::merge`, its height is compared with the bound, and it is taken apart again through the
+            // public fields (`left.take()`, `right.take()`, `update()`): all arithmetic-progression subsequences of
+            // the creations with stride <= S are tried on the same nodes.  The main treap is not touched.
+            let (smax, len) = (c, seed as usize);
+            if smax == 0 || len == 0 || smax.saturating_mul(len) > 64_000_000 {
+                return Err(None);
+            }
+            strides_scan(smax, len).map_err(Some)?;
+        }
         ("pieces", 3) => {
             // cut into `c` pieces at random positions, merge the split results back in order
             let mut parts: Vec<Treap<SumIt>> = Vec::new();
@@ -632,6 +717,70 @@ fn big_op(t: &mut Treap<SumIt>, n: &mut usize, ctr: &mut i64, tk: &[&str]) -> Re
         _ => return Err(None),
     }
     Ok(())
+}
+
+/// see `strides` in `big_op`; returns (largest height seen, the stride that had it)
+fn strides_scan(smax: usize, len: usize) -> Result<(usize, usize), String> {
+    let total = smax * len;
+    let mut nodes: Vec<Link<SumIt>> = Vec::with_capacity(total);
+    for i in 0..total {
+        nodes.push(Some(Box::new(TreapNode::new(SumIt::mk((i % 1000) as i64)))));
+    }
+    let mut members: Vec<usize> = Vec::with_capacity(len);
+    let mut stack: Vec<Box<TreapNode<SumIt>>> = Vec::new();
+    let mut worst = (0usize, 0usize);
+    for s in 1..=smax {
+        // offset 0 and the last window that fits
+        let last = total - 1 - (len - 1) * s;
+        for o in [0usize, last] {
+            members.clear();
+            let mut root: Link<SumIt> = None;
+            for j in 0..len {
+                let idx = o + j * s;
+                members.push(idx);
+                root = TreapNode::merge(root, nodes[idx].take());
+            }
+            let (h, cnt) = height_count(&root);
+            let size_ok = root.as_ref().map_or(0, |r| r.item.sz) == len && cnt == len;
+            let heap = heap_ok(&root);
+            // take the treap apart in order: node j of the in-order walk goes back to slot members[j]
+            let mut j = 0;
+            let mut cur = root;
+            loop {
+                while let Some(mut b) = cur {
+                    cur = b.left.take();
+                    stack.push(b);
+                }
+                match stack.pop() {
+                    None => break,
+                    Some(mut b) => {
+                        cur = b.right.take();
+                        b.update();
+                        if j < members.len() {
+                            nodes[members[j]] = Some(b);
+                        }
+                        j += 1;
+                    }
+                }
+            }
+            if !size_ok || j != len {
+                return Err(format!("BAD(stride={},offset={},nodes={},expected={})", s, o, cnt, len));
+            }
+            if !heap {
+                return Err(format!("BAD(stride={},offset={},heap)", s, o));
+            }
+            if (h as f64) > height_bound(len) {
+                return Err(format!("BAD(stride={},offset={},elements={},height={}>{:.1})", s, o, len, h, height_bound(len)));
+            }
+            if h > worst.0 {
+                worst = (h, s);
+            }
+            if last == 0 {
+                break;
+            }
+        }
+    }
+    Ok(worst)
 }
 
 /// full check: size, heap order on every edge, number of nodes, height bound
@@ -735,6 +884,21 @@ fn measure(sizes: &[usize]) {
             println!("{}", row);
         }
     }
+    // every arithmetic-progression subsequence of the thread's creations with stride <= S (see `strides`)
+    let (smax, len) = if sizes.iter().any(|&n| n >= 1_000_000) { (16_384usize, 256usize) } else { (4_096, 256) };
+    let row = std::thread::Builder::new()
+        .stack_size(2 << 30)
+        .spawn(move || match strides_scan(smax, len) {
+            Ok((h, s)) => format!(
+                "{{\"pattern\":\"strides\",\"n\":{},\"strides_up_to\":{},\"height\":{},\"at_stride\":{},\"bound\":{:.1},\"ok\":true}}",
+                len, smax, h, s, height_bound(len)
+            ),
+            Err(e) => format!("{{\"pattern\":\"strides {}\",\"n\":{},\"detail\":\"{}\",\"ok\":false}}", smax, len, e),
+        })
+        .unwrap()
+        .join()
+        .unwrap_or_else(|_| "{\"ok\":false,\"pattern\":\"crashed\",\"n\":0}".to_string());
+    println!("{}", row);
 }
 
 fn run_case_here(line: &str) -> String {
